@@ -82,7 +82,23 @@ func parseSegments(segments []*recordstore.Segment) ([]*parsedSegment, error) {
 		}
 	}
 
-	return parsed, err
+	// skip segments that cannot be read
+	// (for instance, the one that was being created when the server was stopped abruptly),
+	// in order to keep serving the other ones.
+	n := 0
+	for _, p := range parsed {
+		if p != nil {
+			parsed[n] = p
+			n++
+		}
+	}
+	parsed = parsed[:n]
+
+	if n == 0 {
+		return nil, err
+	}
+
+	return parsed, nil
 }
 
 func urlScheme(ctx *gin.Context, trustedProxies conf.IPNetworks, encryption bool) string {
